@@ -15,13 +15,13 @@ EXTENDS IppUri, Sequences, TLC, Json, IOUtils
 CONSTANTS AcceptIpps443, Check13, Check14
 Rec == ndJsonDeserialize(IOEnv.TRACE)
 VARIABLE l
-C13OK(e) == /\ IsCanonOf(e.canon, e.target)
-            /\ SameUri(e.canon2, e.canon)
-            /\ \A i \in 1..Len(e.req) : IsCanonOf(e.req[i], e.target)
+C13OK(e) == /\ IsCanonOfN(e.canon, e.target)
+            /\ SameUriN(e.canon2, e.canon)
+            /\ \A i \in 1..Len(e.req) : IsCanonOfN(e.req[i], e.target)
             /\ ~e.leak
-C14OK(e) == \/ SameUri(e.transport, Transport(e.target, 631))
+C14OK(e) == \/ SameUriN(e.transport, Transport(e.target, 631))
             \/ (AcceptIpps443 /\ e.target.scheme = "ipps" /\ e.target.port = 0
-                /\ SameUri(e.transport, Transport(e.target, 443)))
+                /\ SameUriN(e.transport, Transport(e.target, 443)))
 Step(e) == e.ev = "uri" /\ (Check13 => C13OK(e)) /\ (Check14 => C14OK(e))
 Init == l = 1
 Next == l <= Len(Rec) /\ Step(Rec[l]) /\ l' = l + 1
